@@ -13,7 +13,8 @@ PKey(p) == IF p = <<>> THEN "" ELSE IF Len(p) = 1 THEN ToString(p[1]) ELSE ToStr
 \* ---- exact top-level targets -------------------------------------------------------------
 TopViol(e) ==
   LET exp == TargetsP(e.schema, e.doc, <<>>)
-      key(t) == <<t.addr, t.local, t.scope, e.extn[PKey(t.rng)].full, IF t.def = "header" THEN e.extn[PKey(t.rng)].header ELSE e.extn[PKey(t.rng)].name>>
+      key(t) == IF t.def = "value" THEN <<t.addr, t.local, t.scope, e.extn[PKey(t.rng)].value, <<>> >>    \* the written reference; no definition range
+                ELSE <<t.addr, t.local, t.scope, e.extn[PKey(t.rng)].full, IF t.def = "header" THEN e.extn[PKey(t.rng)].header ELSE e.extn[PKey(t.rng)].name>>
       ekeys == { <<key(t), t.typ>> : t \in exp }
       okeys == { << <<e.top[i][1], e.top[i][2], e.top[i][3], e.top[i][5], e.top[i][6]>>, e.top[i][4] >> : i \in DOMAIN e.top }
       missing == { x \in ekeys : ~\E y \in okeys : y[1] = x[1] /\ (x[2] = "?" \/ y[2] = x[2]) }
